@@ -188,6 +188,7 @@ class Cutter:
         self.abstract = set(abstract)   # loops replaced by havoc + assumed invariant: their BODY IS NOT VERIFIED (reported as an assumption)
         self.nloops = 0
         self.decls = {}
+        self.sigs = {}           # loop ordinal -> signature of the loop the sidecar invariant was written for (see report: restructured loops)
 
     def abstract_loop(self, node, k):
         mods = sorted(m for m in modified(node.body) | ({node.target.id} if isinstance(node, ast.For) and isinstance(node.target, ast.Name) else set()) if not m.startswith('__'))
@@ -204,6 +205,10 @@ class Cutter:
                 s.body = self.rewrite(s.body)
                 if s.orelse:
                     s.orelse = self.rewrite(s.orelse)
+                if k in self.abstract or k in self.cut:
+                    head = ast.unparse(s.iter) if isinstance(s, ast.For) else ast.unparse(s.test)
+                    self.sigs[k] = '%s|%s|%s|%s' % ('for' if isinstance(s, ast.For) else 'while', head,
+                                                   ','.join(sorted(m for m in modified(s.body) if not m.startswith('__'))), 'break' if _has_break(s.body) else '')
                 if k in self.abstract:
                     out.extend(self.abstract_loop(s, k))
                     continue
@@ -503,5 +508,6 @@ def build(path, qualname, loops, namespace, keep_decorators=False):
     ast.fix_missing_locations(mod)
     ns = namespace
     ns['__vc'] = VC(qualname, loops)
+    ns['__vc'].sigs = dict(cutter.sigs)
     exec(compile(mod, '<cut:%s:%s>' % (path, qualname), 'exec'), ns)
     return ns[fd.name], cutter.nloops
